@@ -7,6 +7,8 @@ import Mathlib.Tactic.LinearCombination
 import Mathlib.Algebra.BigOperators.Fin
 import Mathlib.Algebra.BigOperators.Ring.Finset
 import Mathlib.Algebra.Order.Field.Basic
+import Mathlib.Tactic.NormNum
+import Mathlib.Data.Rat.Defs
 
 /-!
 # C13 — every KKT back end solves the same full regularised Newton system
@@ -840,5 +842,48 @@ theorem factor_then_solve_exact (be : Backend) (st : KKTSettings K) (d : Data K 
     exact res
 
 end refinement
+
+
+/-! ## Non-vacuity: a concrete state (one variable with a lower bound, one equality, one inequality, all-eliminated
+    back end, exact division as the inner solve) meets every hypothesis of `solve_solves_full_system` -/
+
+def exD : Data ℚ 1 1 1 :=
+  { P := #v[#v[2]], AT := #v[#v[1]], GT := #v[#v[3]], c := #v[0], b := #v[0], h := #v[0],
+    lb := { cnt := 1, idx := #v[0], sc := #v[1], val := #v[0] },
+    ub := { cnt := 0, idx := #v[0], sc := #v[1], val := #v[0] } }
+
+def exK0 : KKT ℚ 1 1 1 := KKT.init .allElim exD 1 1 #v[0] #v[0] #v[0] #v[0]
+def exSlv : SolveFn ℚ 1 1 1 := fun rx _ _ => (#v[rx[0] / exK0.k.xx[0][0]], #v[0], #v[0])
+def exK : KKT ℚ 1 1 1 := { exK0 with fsol := some exSlv }
+
+example : Coherent .allElim exD exK ∧ Interior exD exK ∧ InnerExact .allElim exK.k exSlv ∧ exK.fsol = some exSlv := by
+  have hc : Coherent .allElim exD exK0 := init_coherent _ _ _ _ _ _ _ _
+  refine ⟨⟨hc.xx, hc.xy, hc.yy, hc.xz, hc.zz⟩, ?_, ?_, rfl⟩
+  · have hub : ∀ a : Fin 1, ¬ exD.ub.act a := by intro a; simp [BoxSide.act, exD]
+    refine ⟨?_, ?_, ?_, ?_, ?_, ?_, ?_, fun a ha => absurd ha (hub a), fun a ha => absurd ha (hub a), fun a ha => absurd ha (hub a)⟩
+    · show (1:ℚ) ≠ 0; norm_num
+    · intro t; simp [exK, exK0, KKT.init, Vec.const]
+    · intro t; simp [exK, exK0, KKT.init, Vec.const]
+    · intro t; simp [exK, exK0, KKT.init, Vec.const]; norm_num
+    · intro a ha; have h0 : a = 0 := Subsingleton.elim _ _; subst h0; simp [exK, exK0, KKT.init, BoxSide.headUpd, ha]
+    · intro a ha; have h0 : a = 0 := Subsingleton.elim _ _; subst h0; simp [exK, exK0, KKT.init, BoxSide.headUpd, ha]
+    · intro a ha; have h0 : a = 0 := Subsingleton.elim _ _; subst h0; simp [exK, exK0, KKT.init, BoxSide.headUpd, ha]; norm_num
+  · have hx := hc.xx 0 0
+    simp [exD, Backend.keepY, Backend.keepZ, boxTerm, Fin.sum_univ_one, BoxSide.act, Data.Psym, Mat.ofFn, Vec.const, BoxSide.headUpd] at hx
+    have e1 : exK0.rho = 1 := rfl
+    have e2 : exK0.delta = 1 := rfl
+    have e3 : exK0.s[0] = 1 := by simp [exK0, KKT.init, Vec.const]
+    have e4 : exK0.zinv[0] = 1 := by simp [exK0, KKT.init, Vec.const]
+    have e5 : exK0.zinv_lb[0] = 1 := by simp [exK0, KKT.init, BoxSide.headUpd, BoxSide.act, exD]
+    have e6 : exK0.s_lb[0] = 1 := by simp [exK0, KKT.init, BoxSide.headUpd, BoxSide.act, exD]
+    rw [e1, e2, e3, e4, e5, e6] at hx
+    have h9 : exK0.k.xx[0][0] = 9 := by rw [hx]; norm_num
+    intro rx ry rz
+    refine ⟨fun j => ?_, fun h => by simp [Backend.keepY] at h, fun h => by simp [Backend.keepZ] at h⟩
+    have h0 : j = 0 := Subsingleton.elim _ _
+    subst h0
+    simp only [Backend.keepY, Backend.keepZ, Bool.false_eq_true, if_false, add_zero, Fin.sum_univ_one]
+    show exK0.k.xx[0][0] * (rx[0] / exK0.k.xx[0][0]) = rx[0]
+    rw [h9]; field_simp
 
 end Piqp.C13
